@@ -69,6 +69,135 @@ fn worker_opts(rng: &mut Rng) -> (GenOpts, &'static str) {
     }
 }
 
+/// Every 5th corpus design is a "comb lab": always_comb blocks in which several
+/// variables are written more than once in sequence (base write, reassignment,
+/// guarded override, if/else) and later writes of one variable sit between the
+/// first and the last write of another that read it.  Statement-reordering
+/// passes (version split, comb fusion, CSE, layout) are only observable on such
+/// write spans; DesignGen's always_comb blocks write each variable once.
+pub fn is_comblab(i: u64) -> bool {
+    i % 5 == 4
+}
+
+fn comblab_design(k: u64) -> vgen::Design {
+    let mut rng = Rng::for_case(CORPUS_SEED, "C03-comblab", k);
+    let w = *rng.pick(&[8usize, 8, 13, 16, 32, 33, 64, 65]);
+    let nblocks = 1 + rng.usize(3);
+    let mut t = String::new();
+    t.push_str("module Top (\n    i_clk: input clock,\n    i_rst: input reset,\n");
+    for j in 0..4 {
+        t.push_str(&format!("    i{j}: input logic<{w}>,\n"));
+    }
+    t.push_str("    ic: input logic<8>,\n");
+    let mut outs = vec![];
+    let mut body = String::new();
+    let mut decl = String::new();
+    let mut srcs: Vec<String> = (0..4).map(|j| format!("i{j}")).collect();
+    decl.push_str(&format!("    var r0: logic<{w}>;\n"));
+    srcs.push("r0".into());
+    for b in 0..nblocks {
+        let nv = 2 + rng.usize(4);
+        let vars: Vec<String> = (0..nv).map(|j| format!("b{b}v{j}")).collect();
+        for v in &vars {
+            decl.push_str(&format!("    var {v}: logic<{w}>;\n"));
+        }
+        let mut assigned: Vec<String> = vec![];
+        let mut pending: Vec<String> = vars.clone();
+        body.push_str("    always_comb {\n");
+        let steps = nv + 3 + rng.usize(10);
+        let expr = |rng: &mut Rng, assigned: &Vec<String>, srcs: &Vec<String>| -> String {
+            let mut pool: Vec<&String> = srcs.iter().collect();
+            // read already-assigned block variables with a 2:1 bias
+            for v in assigned {
+                pool.push(v);
+                pool.push(v);
+            }
+            let a = (*rng.pick(&pool)).clone();
+            match rng.below(7) {
+                0 => a,
+                1 => format!("{a} + 1"),
+                2 => format!("~{a}"),
+                n => {
+                    let b = (*rng.pick(&pool)).clone();
+                    let op = ["+", "^", "&", "|", "-"][(n as usize - 3) % 5];
+                    format!("{a} {op} {b}")
+                }
+            }
+        };
+        for s in 0..steps {
+            let must_init = !pending.is_empty() && (assigned.len() < 2 || steps - s <= pending.len() || rng.chance(1, 3));
+            if must_init {
+                let v = pending.remove(0);
+                let e = expr(&mut rng, &assigned, &srcs);
+                body.push_str(&format!("        {v} = {e};\n"));
+                assigned.push(v);
+                continue;
+            }
+            if assigned.is_empty() {
+                continue;
+            }
+            let v = rng.pick(&assigned).clone();
+            let bit = rng.usize(8);
+            match rng.below(4) {
+                0 => {
+                    let e = expr(&mut rng, &assigned, &srcs);
+                    body.push_str(&format!("        {v} = {e};\n"));
+                }
+                1 | 2 => {
+                    let e = if rng.bool() { "0".to_string() } else { expr(&mut rng, &assigned, &srcs) };
+                    body.push_str(&format!("        if ic[{bit}] {{\n            {v} = {e};\n        }}\n"));
+                }
+                _ => {
+                    let e1 = expr(&mut rng, &assigned, &srcs);
+                    let e2 = expr(&mut rng, &assigned, &srcs);
+                    body.push_str(&format!(
+                        "        if ic[{bit}] {{\n            {v} = {e1};\n        }} else {{\n            {v} = {e2};\n        }}\n"
+                    ));
+                }
+            }
+        }
+        for v in pending.drain(..) {
+            let e = expr(&mut rng, &assigned, &srcs);
+            body.push_str(&format!("        {v} = {e};\n"));
+            assigned.push(v);
+        }
+        body.push_str("    }\n");
+        for v in &vars {
+            outs.push(v.clone());
+        }
+        // later blocks may read this block's results
+        srcs.extend(vars);
+    }
+    let acc = outs.join(" ^ ");
+    body.push_str(&format!(
+        "    always_ff {{\n        if_reset {{\n            r0 = 0;\n        }} else {{\n            r0 = r0 + ({acc});\n        }}\n    }}\n"
+    ));
+    for (j, _) in outs.iter().enumerate() {
+        t.push_str(&format!("    o{j}: output logic<{w}>,\n"));
+    }
+    t.push_str(&format!("    o_r: output logic<{w}>,\n) {{\n"));
+    t.push_str(&decl);
+    t.push_str(&body);
+    for (j, v) in outs.iter().enumerate() {
+        t.push_str(&format!("    assign o{j} = {v};\n"));
+    }
+    t.push_str("    assign o_r = r0;\n}\n");
+    let mut d = vgen::Design::from_text(&t);
+    d.features = vec!["comb_lab".into(), format!("comblab_blocks_{nblocks}")];
+    d.has_ff = true;
+    d
+}
+
+/// Design #i of the fixed C03 corpus.
+pub fn corpus_design(i: u64) -> (vgen::Design, &'static str) {
+    if is_comblab(i) {
+        return (comblab_design(i / 5), "comb_lab");
+    }
+    let mut rng = Rng::for_case(CORPUS_SEED, "C03-corpus", i);
+    let (opts, mode) = worker_opts(&mut rng);
+    (generate(&mut rng, &opts), mode)
+}
+
 fn engine_set(use_cc: bool) -> Vec<(&'static str, Config)> {
     let mut v = vec![
         ("interp", Config::default()),
@@ -96,9 +225,7 @@ pub fn worker(args: Args) {
     for i in lo..hi {
         let use_cc = cc_every > 0 && i % cc_every == 0;
         let r = fresh_thread(STACK_64M, move || {
-            let mut rng = Rng::for_case(CORPUS_SEED, "C03-corpus", i);
-            let (opts, mode) = worker_opts(&mut rng);
-            let d = generate(&mut rng, &opts);
+            let (d, mode) = corpus_design(i);
             let mut rng = Rng::for_case(seed, "C03-stim", i);
             let stim = stimulus(&d, &mut rng, cycles);
             let md = default_metadata();
@@ -321,6 +448,7 @@ pub fn main(args: Args) {
         ("designs_simulated", 25),
         ("trace_digest_comparisons", 1500),
         ("toggle_sets", 18),
+        ("mode_comb_lab", 8),
         ("diag_lines_comb_fusion", 1),
         ("diag_lines_cone_gate", 1),
     ]);
@@ -422,9 +550,7 @@ pub fn reduce_main(args: Args) {
     let engine = args.get("engine").unwrap_or("jit").to_string();
     let (k, v) = args.get("env").unwrap().split_once('=').unwrap();
     let (k, v) = (k.to_string(), v.to_string());
-    let mut rng = Rng::for_case(CORPUS_SEED, "C03-corpus", i);
-    let (opts, _) = worker_opts(&mut rng);
-    let d0 = generate(&mut rng, &opts);
+    let (d0, _) = corpus_design(i);
     let mut rng = Rng::for_case(args.seed, "C03-stim", i);
     let stim = stimulus(&d0, &mut rng, cycles);
     let cfg = engine_set(true).into_iter().find(|(n, _)| *n == engine).expect("engine").1;
@@ -449,9 +575,7 @@ pub fn reduce_main(args: Args) {
         })
         .unwrap_or(false)
     };
-    let mut rng2 = Rng::for_case(CORPUS_SEED, "C03-corpus", i);
-    let (opts2, _) = worker_opts(&mut rng2);
-    let d = generate(&mut rng2, &opts2);
+    let (d, _) = corpus_design(i);
     println!("original differs: {}", differs(&d.text, false));
     let mut keep = |t: &str| differs(t, false);
     let small = vgen::reduce::reduce(&d.text, &mut keep, 4000);
